@@ -332,6 +332,66 @@ def r9(p, rep):
     rep.info["guard_after_use_tests_inspected"] = n_tests
 
 
+def r10(p, rep):
+    rep.rule("C12.R10", "what is printed in front of `...` is one group: an operand whose own text is not a single token or a delimited group is wrapped", "T-EXH over the stage-1 node classes (printer of the ellipsis operand)", floor=4)
+    m = p.module("namedtensor.stage1.tree")
+    base = p.cls("Expression", "namedtensor.stage1.tree")
+    pm = p.module("namedtensor.stage1.parse")
+    ev = LiteralEvaluator(p, pm)
+    try:
+        pairs = dict(ev.name("_parentheses"))
+    except NotLiteral:
+        raise AnalysisError("anchor vanished: _parentheses table of the lexer")
+    ell = p.cls("Ellipsis", "namedtensor.stage1.tree")
+    es = ell.methods.get("__str__")
+    if es is None:
+        raise AnalysisError("anchor vanished: stage1.Ellipsis.__str__")
+    s0 = es.node.args.args[0].arg
+    wrapped = set()
+    for n in ast.walk(es.node):
+        if isinstance(n, ast.Call) and isinstance(n.func, ast.Name) and n.func.id == "isinstance" and len(n.args) == 2 and norm(n.args[0]) == f"{s0}.inner":
+            wrapped |= {x.id for x in ast.walk(n.args[1]) if isinstance(x, ast.Name)}
+
+    def shape_of(c):
+        f = c.methods.get("__str__")
+        if f is None:
+            return "inherited"
+        kinds = set()
+        for r in walk_no_nested(f.node):
+            if isinstance(r, ast.Return) and r.value is not None:
+                v = r.value
+                parts = []
+                while isinstance(v, ast.BinOp) and isinstance(v.op, ast.Add):
+                    parts.insert(0, v.right)
+                    v = v.left
+                parts.insert(0, v)
+                if len(parts) >= 3 and isinstance(parts[0], ast.Constant) and isinstance(parts[-1], ast.Constant) and pairs.get(parts[0].value) == parts[-1].value:
+                    kinds.add("delimited")
+                elif isinstance(r.value, ast.JoinedStr) and r.value.values and isinstance(r.value.values[0], ast.Constant) and isinstance(r.value.values[-1], ast.Constant) and pairs.get(r.value.values[0].value[:1]) == r.value.values[-1].value[-1:]:
+                    kinds.add("delimited")
+                elif isinstance(r.value, ast.Constant):
+                    kinds.add("token")
+                elif isinstance(r.value, ast.IfExp) and all(isinstance(x, ast.Attribute) or (isinstance(x, ast.Call) and norm(x.func) == "str" and isinstance(x.args[0], ast.Attribute)) for x in (r.value.body, r.value.orelse)):
+                    kinds.add("token")
+                elif isinstance(r.value, ast.Attribute):
+                    kinds.add("token")
+                else:
+                    kinds.add("open")
+        return "open" if "open" in kinds else ("delimited" if "delimited" in kinds else "token")
+
+    top_level_only = {"Args", "Op"}  # never the operand of an ellipsis (the parser builds them only at the root)
+    for c in p.subclasses(base):
+        if c.module is not m or c.name in top_level_only:
+            continue
+        sh = shape_of(c)
+        key = f"{es.qualname}:operand:{c.name}"
+        if sh in ("delimited", "token"):
+            rep.ok("C12.R10", key, c.loc, f"str({c.name}) is a {sh}: `{c.name}...` re-parses as one operand")
+        else:
+            ok = c.name in wrapped
+            rep.add("C12.R10", key, es.loc, ok, f"str({c.name}) is not a single group; Ellipsis.__str__ wraps it" if ok else f"str({c.name}) is not a single group and Ellipsis.__str__ prints it bare: an ellipsis whose operand is itself an {c.name} prints as e.g. 'a......', which does not re-parse - einx.sum('[a...]...', x) raises a SyntaxError about text the caller never wrote")
+
+
 def run(p, rep, tier):
     r8(p, rep)
     rep.rule("C12.R1", "parser dispatch chains cover their tables / node families", "T-EXH", floor=5)
@@ -345,4 +405,5 @@ def run(p, rep, tier):
     r6(p, rep)
     r7(p, rep)
     r9(p, rep)
+    r10(p, rep)
     rep.info["undecided"] = "structural round-trip equality for all strings and termination of the recursive descent; only the alphabet/progress/dispatch/position clauses are decided"
